@@ -165,6 +165,18 @@ def mutants_at(base, pos: int):
             {**TR, "o": ("literal", "x", None, 1), **({"g": ("default",)} if pt == 2 else {})})])
     if kind in ("triple", "quad"):
         v = row["v"]
+        # the zero form of a name reference ("the slot after the one used last") right after the
+        # last slot of the table has been used: it denotes slot size + 1, which does not exist
+        pairs = [(a, b) for a, b in (("s", "p"), ("p", "o"), ("s", "o"), ("o", "g"), ("p", "g"))
+                 if a in v and b in v and v[a][0] == "iri" and v[b][0] == "iri"
+                 and not any(c in v and v[c][0] in ("iri", "triple")
+                             for c in ("s", "p", "o", "g")[("s", "p", "o", "g").index(a) + 1:
+                                                           ("s", "p", "o", "g").index(b)])]
+        for a, b in pairs[:2]:
+            fr = replace(jwire.mkrow(kind, {**v, a: _set_ref(v[a], "name", sizes["name"]),
+                                            b: _set_ref(v[b], "name", 0)}))
+            fr[fi][ri:ri] = [jwire.mkrow("name", {"id": sizes["name"], "value": "zz"})]
+            yield "name-ref-zero-form-beyond-size", fr
         for slot in ("s", "p", "o", "g"):
             if slot not in v:
                 continue
